@@ -40,7 +40,9 @@ def calcQ(x):
     theta = torch.linalg.norm(phi, dim=-1, keepdim=True).unsqueeze(-1)
     theta2 = theta**2
     theta4 = theta2**2
-    idx = (theta > torch.finfo(theta.dtype).eps)
+    # the closed forms below cancel catastrophically for small angles (error ~ eps / theta^2 in Q),
+    # the two-term series are accurate to theta^5 / 5040: switch where the two errors meet
+    idx = (theta > (5040 * torch.finfo(theta.dtype).eps) ** (1.0 / 7))
     # coef1
     coef1 = torch.zeros_like(theta, requires_grad=False)
     coef1 += idx * torch.nan_to_num((theta - theta.sin()) / (theta2 * theta))
